@@ -63,7 +63,7 @@ func execDirect(f []string) (res string) {
 }
 
 func workerMain() {
-	debug.SetMaxStack(128 << 20)
+	debug.SetMaxStack(16 << 20)
 	in := bufio.NewReaderSize(os.Stdin, 1<<20)
 	out := bufio.NewWriterSize(os.Stdout, 1<<20)
 	for {
@@ -434,6 +434,10 @@ func run(c *fw.Ctx) {
 		runTable(c, genTable(c.Rng))
 	}
 	var sample []*Lineage
+	for _, l := range witnessLineages() {
+		runLineage(c, l, "witness")
+		sample = append(sample, l)
+	}
 	nl := c.N(3000, 100000)
 	want := c.N(250, 2000)
 	for i := 0; i < nl; i++ {
@@ -443,7 +447,7 @@ func run(c *fw.Ctx) {
 		if i < 4 {
 			c.Sample("C15 pom " + l.Encode())
 		}
-		if len(sample) < want && !m.Wild {
+		if len(sample) < want+12 && !m.Wild {
 			sample = append(sample, l)
 		}
 	}
